@@ -247,6 +247,26 @@ def seq_ops(job):
     sig5 = (D.encode(*valid_sig_for(C, 5, z)) + bytes([flag])).hex()
     ops.append(("tuple", {"curve": cv, "sig": sig5, "pk": enc_pk(C.mul(3, C.G), True).hex(), "msg": msg.hex(), "what": "signature of key 5 under key 3 (must be rejected)"}))
     ops.append(("tuple", {"curve": cv, "sig": sig3, "pk": enc_pk(C.mul(5, C.G), True).hex(), "msg": msg.hex(), "what": "signature of key 3 under key 5 (must be rejected)"}))
+    # the same concatenation sig || pubkey || msg cut at other places (a cache keyed by the unframed concatenation cannot tell
+    # these from the valid tuple they follow): uncompressed key cut after x, compressed key extended by message bytes
+    P3 = C.mul(3, C.G)
+    long_msg = b"m" * 40
+    zl = int.from_bytes(h256(long_msg + flag.to_bytes(4, "little")), "big")
+    sigl = (D.encode(*valid_sig_for(C, 3, zl)) + bytes([flag])).hex()
+    upk, cpk3 = enc_pk(P3, False), enc_pk(P3, True)
+    ops.append(("tuple", {"curve": cv, "sig": sig3, "pk": upk.hex(), "msg": msg.hex(), "what": "valid, key 3 uncompressed (again)"}))
+    ops.append(("tuple", {"curve": cv, "sig": sig3, "pk": upk[:33].hex(), "msg": (upk[33:] + msg).hex(), "what": "uncompressed key cut after x, y moved into the message"}))
+    ops.append(("tuple", {"curve": cv, "sig": sigl, "pk": cpk3.hex(), "msg": long_msg.hex(), "what": "valid, 40-byte message"}))
+    ops.append(("tuple", {"curve": cv, "sig": sigl, "pk": (cpk3 + long_msg[:32]).hex(), "msg": long_msg[32:].hex(), "what": "32 message bytes moved into the key"}))
+    ops.append(("tuple", {"curve": cv, "sig": sig3[:-2], "pk": (bytes([flag]) + cpk3).hex(), "msg": msg.hex(), "what": "sighash byte moved from the signature into the key"}))
+    # a message that already ends with the 4-byte little-endian sighash type: its genuine signature must verify, and the
+    # signature of the message WITHOUT those 4 bytes must not verify for it
+    m2 = msg + flag.to_bytes(4, "little")
+    z2 = int.from_bytes(h256(m2 + flag.to_bytes(4, "little")), "big")
+    sig_m2 = (D.encode(*valid_sig_for(C, 3, z2)) + bytes([flag])).hex()
+    ops.append(("tuple", {"curve": cv, "sig": sig_m2, "pk": cpk3.hex(), "msg": m2.hex(), "what": "valid; the message itself ends with the sighash suffix"}))
+    ops.append(("tuple", {"curve": cv, "sig": sig3, "pk": cpk3.hex(), "msg": m2.hex(), "what": "signature over m presented for m || suffix (must be rejected)"}))
+    ops.append(("tuple", {"curve": cv, "sig": sig3, "pk": cpk3.hex(), "msg": m2.hex(), "preimage": True, "what": "m || suffix given as the pre-image of the signature over m (valid)"}))
     return ops
 
 
